@@ -179,13 +179,17 @@ func (w *vpWorld) removeAllAndCheckEmpty() {
 }
 
 //vp:prop C24
-//vp:bounds 3 addresses on 2 IPs; pre-state: up to 2 connections each driven through the real API to pending / connected / introduced with free connection ids, mirrors and listen ports in {0,7000}; then 1 (quick) or 2 (thorough) arbitrary events (outgoing attempt, connect, introduce, remove) with free ids and mirrors; finally every live connection is removed
+//vp:bounds 3 addresses on 2 IPs; pre-state: up to 2 connections each driven through the real API to pending / connected / introduced with free connection ids, mirrors and listen ports in {0,7000}; then 1 arbitrary event (quick: from up to 2 pre-state connections) or 2 arbitrary events (thorough: from up to 1 pre-state connection) (outgoing attempt, connect, introduce, remove) with free ids and mirrors; finally every live connection is removed
 //vp:assume gnet hands out non-repeating connection ids (an id passed to connect is not held by another live connection)
 //vp:noreplay shadow model harness (natively replayable in principle; kept symbolic-only for speed)
 func vpH_C24_StepInvariant() {
 	w := &vpWorld{c: NewConnections()}
 	// reachable pre-state: each of two slots runs a prefix of attempt/connect/introduce
-	for slot := 0; slot < 2; slot++ {
+	slots, steps := 2, 1
+	if vpThorough() && vpLen("shape", 0, 1) == 1 {
+		slots, steps = 1, 2 // two events from two pre-state connections exceed the path limit
+	}
+	for slot := 0; slot < slots; slot++ {
 		a := 0 // first connection: 1.1.1.1:6000; second: same IP other port, or another IP
 		if slot == 1 {
 			a = vpLen("secondAddr", 1, 2)
@@ -202,10 +206,6 @@ func vpH_C24_StepInvariant() {
 		}
 	}
 	w.check()
-	steps := 1
-	if vpThorough() {
-		steps = 2
-	}
 	for s := 0; s < steps; s++ {
 		w.event(vpLen("event", 0, 3), vpLen("addr", 0, 2))
 		w.check()
